@@ -54,7 +54,7 @@ Proof. exact earlier_names_survive_failure. Qed.
 (* an input rejected at compile time (and importing nothing) changes nothing but the frame stack *)
 Theorem rejected_input_changes_nothing_in_sessions : forall C fuel d L body nm im,
   mstep C fuel d (SInput [] false L body nm im) =
-    (mkD (with_frames (d_vm d) []) (d_known d) (d_mut d), [], SErr).
+    (mkD (with_frames (d_vm d) []) (d_known d) (d_mut d) (d_loaded d), [], SErr).
 Proof. exact rejected_input_changes_nothing. Qed.
 
 (* VM::set_global (the host API, and the module loader's export registration) keeps the two views
